@@ -57,9 +57,9 @@ func rawChunk(mt string, flag byte, chanID, tokID, seq, req uint32, body []byte)
 	return append(b, body...)
 }
 
-func symMessage() *uasc.Message {
+func symMessage(mt string) *uasc.Message {
 	return &uasc.Message{MessageHeader: &uasc.MessageHeader{
-		Header:                  uasc.NewHeader(uasc.MessageTypeMessage, uasc.ChunkTypeFinal, 1),
+		Header:                  uasc.NewHeader(mt, uasc.ChunkTypeFinal, 1),
 		SymmetricSecurityHeader: uasc.NewSymmetricSecurityHeader(1),
 		SequenceHeader:          uasc.NewSequenceHeader(1, 1),
 	}}
@@ -105,9 +105,15 @@ func (e *env) symmetric(uri string, mode ua.MessageSecurityMode, steps int) {
 		body := e.rnd.Bytes(n)
 		flag := byte("CFA"[e.rnd.Intn(3)])
 		chanID, tokID, seq, req := uint32(e.rnd.U64()), uint32(e.rnd.U64()), uint32(e.rnd.U64()), uint32(e.rnd.U64())
-		raw := rawChunk("MSG", flag, chanID, tokID, seq, req, body)
+		mt := "MSG"
+		if e.rnd.Intn(4) == 0 {
+			mt, flag = "CLO", 'F' // CloseSecureChannel: same layout, always a final chunk
+		}
+		e.r.Hit("sym-type:" + mt)
+		raw := rawChunk(mt, flag, chanID, tokID, seq, req, body)
 		payload := "ok " + h.Hex(raw[16:])
 		canon := fmt.Sprintf("sym %s mode=%d %s step=%d body=%d", pol, mode, role, step, n)
+		_ = canon
 		e.r.Count(canon+" "+h.Hex(cn[:4]), true)
 		e.r.Hit("policy:" + pol)
 		e.r.Hit(fmt.Sprintf("mode:%d", mode))
@@ -116,7 +122,7 @@ func (e *env) symmetric(uri string, mode ua.MessageSecurityMode, steps int) {
 		args := fmt.Sprintf("%s %d %s %s %s", pol, mode, role, h.Hex(cn), h.Hex(sn))
 
 		// (1) gopcua sends: the specification side must be able to open it, and it must be the specification's bytes
-		wire, err := safeSec(snd, symMessage(), append([]byte(nil), raw...))
+		wire, err := safeSec(snd, symMessage(mt), append([]byte(nil), raw...))
 		if err != nil {
 			fail("signAndEncrypt: " + err.Error())
 			continue
@@ -130,7 +136,7 @@ func (e *env) symmetric(uri string, mode ua.MessageSecurityMode, steps int) {
 			} else {
 				e.r.Hit("spec-opens-gopcua")
 			}
-			secure := fmt.Sprintf("specsecure %s MSG %c %d %d %d %d", args, flag, chanID, tokID, seq, req)
+			secure := fmt.Sprintf("specsecure %s %s %c %d %d %d %d", args, mt, flag, chanID, tokID, seq, req)
 			e.r.Compare(e.d, secure+" 0 "+h.Hex(body), h.Hex(wire))
 			// (2) the specification side sends (minimal padding, and extra whole blocks): gopcua must open it
 			for _, k := range []int{0, 1, e.rnd.Intn(15)} {
@@ -365,9 +371,24 @@ func (e *env) asymmetric(uri string, mode ua.MessageSecurityMode, a, b *h.KeyPai
 		RequestType: ua.SecurityTokenRequestTypeIssue, SecurityMode: mode,
 		ClientNonce: e.rnd.Bytes(32 + e.rnd.Intn(64)), RequestedLifetime: 3600000,
 	}
+	// the service: an OpenSecureChannelRequest (client -> server) or the
+	// OpenSecureChannelResponse (server -> client), as handleOpenSecureChannelRequest builds it
+	var svc interface{} = req
+	if e.rnd.Bool() {
+		svc = &ua.OpenSecureChannelResponse{
+			ResponseHeader: &ua.ResponseHeader{Timestamp: time.Date(2024, 1, 2, 3, 4, 6, 0, time.UTC), RequestHandle: req.RequestHeader.RequestHandle,
+				ServiceDiagnostics: &ua.DiagnosticInfo{}, StringTable: []string{}, AdditionalHeader: ua.NewExtensionObject(nil)},
+			SecurityToken: &ua.ChannelSecurityToken{ChannelID: uint32(e.rnd.U64()), TokenID: uint32(e.rnd.U64()),
+				CreatedAt: time.Date(2024, 1, 2, 3, 4, 6, 0, time.UTC), RevisedLifetime: 3600000},
+			ServerNonce: e.rnd.Bytes(32 + e.rnd.Intn(64)),
+		}
+		e.r.Hit("opn-service:response")
+	} else {
+		e.r.Hit("opn-service:request")
+	}
 	// (1) gopcua -> reference
 	gop.SetSequenceNumber(uint32(e.rnd.Intn(1000)))
-	m := gop.NewMessage(req, ua.ServiceTypeID(req), uint32(e.rnd.U64()))
+	m := gop.NewMessage(svc, ua.ServiceTypeID(svc), uint32(e.rnd.U64()))
 	chunks, err := m.EncodeChunks(gop.MaxBodySize())
 	if err != nil || len(chunks) != 1 {
 		fail(fmt.Sprintf("EncodeChunks: %d chunks, %v", len(chunks), err))
@@ -411,7 +432,7 @@ func (e *env) asymmetric(uri string, mode ua.MessageSecurityMode, a, b *h.KeyPai
 	}
 	// (2) reference -> gopcua: the same message protected by the reference with the peer's key, minimal and extra padding
 	peerInst.SetSequenceNumber(uint32(e.rnd.Intn(1000)))
-	pm := peerInst.NewMessage(req, ua.ServiceTypeID(req), uint32(e.rnd.U64()))
+	pm := peerInst.NewMessage(svc, ua.ServiceTypeID(svc), uint32(e.rnd.U64()))
 	pchunks, err := pm.EncodeChunks(peerInst.MaxBodySize()) // only the unsecured encoding of headers and body is taken from here
 	if err != nil || len(pchunks) != 1 {
 		fail("EncodeChunks(peer)")
@@ -476,7 +497,7 @@ func main() {
 		pms = append(pms, pm{u, ua.MessageSecurityModeSign}, pm{u, ua.MessageSecurityModeSignAndEncrypt})
 	}
 	for _, p := range pms {
-		for i := 0; i < o.N(6, 200); i++ {
+		for i := 0; i < o.N(6, 80); i++ {
 			e.symmetric(p.uri, p.mode, 4+e.rnd.Intn(4))
 			if r.InfraError != "" {
 				r.Write(o.Out)
@@ -512,9 +533,9 @@ func main() {
 			}
 		}
 	}
-	want := []string{"ref-opens-gopcua", "gopcua-opens-ref:k=0", "gopcua-opens-ref:k=1", "opn:extra gopcua->peer=true peer->gopcua=false", "opn:extra gopcua->peer=false peer->gopcua=true"}
+	want := []string{"opn-service:response", "opn-service:request", "ref-opens-gopcua", "gopcua-opens-ref:k=0", "gopcua-opens-ref:k=1", "opn:extra gopcua->peer=true peer->gopcua=false", "opn:extra gopcua->peer=false peer->gopcua=true"}
 	if d != nil {
-		want = append(want, "spec-opens-gopcua", "gopcua-opens-spec:k=0", "gopcua-opens-spec:k=1", "gopcua-opens-spec:k=2", "sym-step:3")
+		want = append(want, "sym-type:CLO", "spec-opens-gopcua", "gopcua-opens-spec:k=0", "gopcua-opens-spec:k=1", "gopcua-opens-spec:k=2", "sym-step:3")
 	}
 	for _, b := range want {
 		if r.Distribution[b] == 0 {
